@@ -9,7 +9,7 @@
 #![allow(static_mut_refs)]
 
 use std::alloc::{GlobalAlloc, Layout, System};
-use std::sync::atomic::{AtomicBool, Ordering};
+use std::sync::atomic::{AtomicBool, AtomicU64, Ordering};
 
 pub const ARENA_BASE: usize = 0x5000_0000_0000;
 pub const ARENA_SIZE: usize = 64 << 30;
@@ -62,6 +62,29 @@ struct State {
 }
 
 static ZONE: AtomicBool = AtomicBool::new(false);
+static COUNTING: AtomicBool = AtomicBool::new(false);
+static COUNT_REQS: AtomicU64 = AtomicU64::new(0);
+static COUNT_BYTES: AtomicU64 = AtomicU64::new(0);
+
+#[inline]
+fn count(layout: Layout) {
+    if COUNTING.load(Ordering::Relaxed) {
+        COUNT_REQS.fetch_add(1, Ordering::Relaxed);
+        COUNT_BYTES.fetch_add(layout.size() as u64, Ordering::Relaxed);
+    }
+}
+
+/// Start counting allocation requests (a deterministic cost measure; no guarding).
+pub fn count_begin() {
+    COUNT_REQS.store(0, Ordering::Relaxed);
+    COUNT_BYTES.store(0, Ordering::Relaxed);
+    COUNTING.store(true, Ordering::Relaxed);
+}
+
+pub fn count_end() -> (u64, u64) {
+    COUNTING.store(false, Ordering::Relaxed);
+    (COUNT_REQS.load(Ordering::Relaxed), COUNT_BYTES.load(Ordering::Relaxed))
+}
 static mut ST: State = State {
     mapped: false,
     next: 0,
@@ -247,6 +270,7 @@ unsafe fn arena_free(ptr: *mut u8, layout: Layout) {
 
 unsafe impl GlobalAlloc for GuardAlloc {
     unsafe fn alloc(&self, layout: Layout) -> *mut u8 {
+        count(layout);
         if ZONE.load(Ordering::Relaxed) {
             zone_alloc(layout, false)
         } else {
@@ -255,6 +279,7 @@ unsafe impl GlobalAlloc for GuardAlloc {
     }
 
     unsafe fn alloc_zeroed(&self, layout: Layout) -> *mut u8 {
+        count(layout);
         if ZONE.load(Ordering::Relaxed) {
             let p = zone_alloc(layout, true);
             // E10: this call is reached from JIT code through hpbf_context_extend
@@ -278,6 +303,9 @@ unsafe impl GlobalAlloc for GuardAlloc {
         let p = ptr as usize;
         let in_arena = p >= ARENA_BASE && p < ARENA_BASE + ARENA_SIZE && ST.mapped;
         if !in_arena && !ZONE.load(Ordering::Relaxed) {
+            if COUNTING.load(Ordering::Relaxed) {
+                count(Layout::from_size_align_unchecked(new_size.saturating_sub(layout.size()), layout.align()));
+            }
             return System.realloc(ptr, layout, new_size);
         }
         let new_layout = Layout::from_size_align_unchecked(new_size, layout.align());
